@@ -61,6 +61,27 @@ fn main() {
         eprintln!("tier must be quick or thorough");
         std::process::exit(2);
     }
+    // resource caps inside the engine: RSS (default 24 GiB) and wall clock (default 6 h); hitting one is a
+    // machinery failure (exit 2), never a verdict
+    std::thread::spawn(|| {
+        let cap_gb: u64 = std::env::var("VERIF_RSS_CAP_GB").ok().and_then(|s| s.parse().ok()).unwrap_or(24);
+        let wall_cap_s: u64 = std::env::var("VERIF_WALL_CAP_S").ok().and_then(|s| s.parse().ok()).unwrap_or(6 * 3600);
+        let start = std::time::Instant::now();
+        loop {
+            std::thread::sleep(std::time::Duration::from_millis(1000));
+            if let Ok(statm) = std::fs::read_to_string("/proc/self/statm") {
+                let rss_pages: u64 = statm.split_whitespace().nth(1).and_then(|x| x.parse().ok()).unwrap_or(0);
+                if rss_pages * 4096 > cap_gb << 30 {
+                    eprintln!("MACHINERY ERROR: resident set exceeds the {cap_gb} GiB cap");
+                    std::process::exit(2);
+                }
+            }
+            if start.elapsed().as_secs() > wall_cap_s {
+                eprintln!("MACHINERY ERROR: wall clock cap of {wall_cap_s} s exceeded");
+                std::process::exit(2);
+            }
+        }
+    });
     // a panic anywhere in the harness is a machinery failure (exit 2), never a verdict
     let r = std::panic::catch_unwind(std::panic::AssertUnwindSafe(|| props::dispatch(&args)));
     match r {
